@@ -105,6 +105,15 @@ def gen(tier, seed, chunk, nch):
                 env[ENVN] = b"must-not-be-read"
             cases.append({"decl": d, "env": env, "argv": _given_argv(rng, kind, given),
                           "cell": [kind, str(given), envstate, repr(default), optional]})
+            if envstate != "unbound" and e in (None, b"plain", b"x;y", b"TRUE", b"no", b"dflt", b"d1;d2"):
+                # history layer: the parser has parsed before, under another state of the environment
+                for pre_env in (None, b"", b"earlier"):
+                    pre_argv = rng.choice([[], [], _given_argv(rng, kind, True)])
+                    if kind != "t" and not optional and default is None and pre_env != b"earlier" and not pre_argv:
+                        pre_argv = _given_argv(rng, kind, True)   # keep the first parse acceptable
+                    cases.append({"decl": d, "env": env, "argv": _given_argv(rng, kind, given),
+                                  "pre": {"env": pre_env, "argv": pre_argv},
+                                  "cell": [kind, str(given), envstate, repr(default), optional]})
     if tier == "thorough":
         cells = list(_cells())
         alpha = [b"-", b"=", b";", b"a", b" ", b"\n", b"\x80", b"1", b"no", b"on", b"TRUE"]
@@ -122,16 +131,34 @@ def gen(tier, seed, chunk, nch):
 
 
 def script(cid, case):
-    return optoracle.single_script(cid, case)
+    pre = case.get("pre")
+    if not pre:
+        return optoracle.single_script(cid, case)
+    # the same parser parses once under another state of the environment first: the ranking of the
+    # sources must be decided afresh by every parse
+    actions = []
+    if pre["env"] is not None:
+        actions.append(("setenv", ENVN, pre["env"]))
+    actions.append(("parse", "A", pre["argv"]))
+    if ENVN in case["env"]:
+        actions.append(("setenv", ENVN, case["env"][ENVN]))
+    else:
+        actions.append(("unsetenv", ENVN))
+    actions.append(("parse", "A", case["argv"]))
+    text, _ = optrun.case_script(cid, case["decl"], {}, actions)
+    return text
 
 
 def evaluate(case, lines, S):
-    line = next((l for l in lines if l.startswith("P ")), None)
+    plines = [l for l in lines if l.startswith("P ")]
+    line = plines[-1] if plines else None
     if line is None:
         S.inconc.append("no parse line")
         return
     d, env, argv = case["decl"], case["env"], case["argv"]
     cell = case["cell"]
+    if case.get("pre"):
+        S.counters["second-parse-after-another-environment-state"] += 1
     e = env.get(ENVN)
     bound = d["opts"][0].get("env") is not None
     S.counters["cell:%s:given=%s:%s" % (cell[0], cell[1], cell[2])] += 1
